@@ -195,6 +195,21 @@ func Open(name string) (File, error) {
 	return memFile{bytes.NewReader(b)}, nil
 }
 
+// WFile is what OpenFile returns (an *os.File when no file system is installed).
+type WFile interface {
+	io.Writer
+	io.Closer
+}
+
+// OpenFile: the simulated tree is read-only - opening for writing fails the
+// way it does on a read-only mount.
+func OpenFile(name string, flag int, perm os.FileMode) (WFile, error) {
+	if cur == nil {
+		return os.OpenFile(name, flag, perm)
+	}
+	return nil, perr("open", name, syscall.EROFS)
+}
+
 func Getwd() (string, error) {
 	f := cur
 	if f == nil {
